@@ -344,6 +344,12 @@ class Exec(Verifier):
             if isinstance(base, Py) or base is None:
                 raise Unsupported("subscript assignment")
             idx = self.ev_v(t.slice)
+            if base.ty.kind == "opt":
+                self.oblige("TypeError: 'NoneType' object does not support item assignment", "safety", z3.Not(T.opt_is_none(base.ty, base.t)))
+                base = V(base.ty.args[0], T.opt_val(base.ty, base.t))
+            if base.ty.kind == "ref" and self.reg.contract_for("ext", "%s.__setitem__" % base.ty.args[0]) is not None:
+                self.call_ext("%s.__setitem__" % base.ty.args[0], base, [idx, v], {})
+                return
             if base.ty.kind == "dict":
                 self.dict_set(base, idx, v)
                 return
